@@ -140,6 +140,35 @@ func imageOf(p unsafe.Pointer, n uintptr) []byte {
 	return b
 }
 
+// Marshalled images are values: the slice a marshalBinary call returned must still hold that image after any
+// number of later calls (a caller may hold the current and the requested configuration side by side; seeded
+// change C20-w9-m2 returned slices of one package-level scratch array). Every returned slice is retained as
+// returned (not copied); checkRetained re-reads them after later calls and prints, for each one whose bytes
+// changed, the ordinary M* line again with the bytes the holder now sees - the driver reports it like any
+// other image that differs from the layout model.
+type retainedImage struct {
+	kind, fields, was, abi, rt string
+	img                        []byte
+}
+
+var retained []retainedImage
+
+func retain(kind, fields string, img []byte, was, abi, rt string) {
+	if was == "panic" || len(retained) >= 4096 {
+		return
+	}
+	retained = append(retained, retainedImage{kind, fields, was, abi, rt, img})
+}
+
+func checkRetained() {
+	for _, r := range retained {
+		if now := hexb(r.img); now != r.was {
+			fmt.Fprintf(out, "%s %s %s %s %s\n", r.kind, r.fields, now, r.abi, r.rt)
+		}
+	}
+	retained = retained[:0]
+}
+
 func emitMI(m unix.IfInfomsg) {
 	var impl []byte
 	is := guard(func() string { impl = candevice.VerifMarshalIfInfoMsg(m); return hexb(impl) })
@@ -155,6 +184,7 @@ func emitMI(m unix.IfInfomsg) {
 		})
 	}
 	fmt.Fprintf(out, "MI %s %s %s %s\n", strings.ReplaceAll(fmtIfi(m), ",", " "), is, hexb(abi), rt)
+	retain("MI", strings.ReplaceAll(fmtIfi(m), ",", " "), impl, is, hexb(abi), rt)
 }
 
 func emitMB(v unix.CANBitTiming) {
@@ -175,6 +205,7 @@ func emitMB(v unix.CANBitTiming) {
 		})
 	}
 	fmt.Fprintf(out, "MB %s %s %s %s\n", strings.ReplaceAll(fmtBT(v), ",", " "), is, hexb(abi), rt)
+	retain("MB", strings.ReplaceAll(fmtBT(v), ",", " "), impl, is, hexb(abi), rt)
 }
 
 func emitMC(v unix.CANCtrlMode) {
@@ -195,6 +226,7 @@ func emitMC(v unix.CANCtrlMode) {
 		})
 	}
 	fmt.Fprintf(out, "MC %s %s %s %s\n", strings.ReplaceAll(fmtCM(v), ",", " "), is, hexb(abi), rt)
+	retain("MC", strings.ReplaceAll(fmtCM(v), ",", " "), impl, is, hexb(abi), rt)
 }
 
 func setBT(b *unix.CANBitTiming, f int, v uint32) {
@@ -746,8 +778,11 @@ func main() {
 		fmt.Fprintf(out, "SZ %s %x\n", s.name, sz[s.name])
 	}
 	layout(4 * scale)
+	checkRetained() // images returned during the layout block, after all of its later marshal calls
+	layout(1) // a second block: what the first calls returned is re-read once more after these
 	decoders(6 * scale)
 	enc := linkinfo(300 * scale)
 	streams(400*scale, enc)
 	devices(200 * scale)
+	checkRetained()
 }
